@@ -85,6 +85,11 @@ def gen_script(d, specs, dialect, weights=None, list_heavy=False, unresolved=Tru
             sep = '@' if dialect == 'old' else '#'
             tagtxt = ('<%s> ' % m['conn']) if m['conn'] is not None else ''
             body = d.choice(['wl_output%s%d.scale(2)', 'wl_surface%s%d.commit()', 'zz_unknown%s%d.frob(1, "x")', 'wl_callback%s%d.done(7)']) % (sep, 900 + d.int(0, 5))
+            if d.chance(0.4):
+                # ... while the view is restricted to one connection by the filter: the message belongs to the connection it arrived on
+                c = d.choice(['A:', 'B:', 'A:'])
+                items.append(['cmd', 'filter !'])
+                items.append(['cmd', 'filter ' + c, None, dict(alts=[c], excl=[])])
             items.append(['line', wire.timestamp(m['t_us'], dialect) + tagtxt + d.choice(['', ' -> ']) + body, m['conn']])
     return items
 
